@@ -212,6 +212,19 @@ theorem old_board_write_torn (fs : FS) (p : Name) (new : Bytes) :
   · rw [h4]; exact (tempRename_get fs (tmpOf p) p new (append_tmp_ne p) 4).2.1 (by omega)
   · rw [h5]; simp [crash, directWrite, writeFile, apply, get_set_eq]
 
+/-- NEGATIVE WITNESS (why the temp file must be TRUNCATED when it is opened; `temp_rename_atomic` holds for every
+    prior state precisely because `os.WriteFile` truncates): if an earlier crash left a temp file LONGER than the
+    new content and the temp is opened without `O_TRUNC`, the completed, acknowledged update publishes the new
+    content followed by the stale tail – neither old nor new (the next restart fails to parse it). -/
+theorem no_trunc_inherits_stale_tail :
+    ∃ (fs : FS) (tmp p : Name) (new : Bytes),
+      get fs tmp ≠ none ∧
+      get (crash (tempRenameNoTrunc tmp p new) 4 fs) p ≠ get fs p ∧
+      get (crash (tempRenameNoTrunc tmp p new) 4 fs) p ≠ some new ∧
+      get (crash (tempRename tmp p new) 4 fs) p = some new :=
+  ⟨[("n.tmp".toList, [9, 9, 9, 9, 9]), ("n".toList, [1])], "n.tmp".toList, "n".toList, [2, 3],
+    by decide, by decide, by decide, by decide⟩
+
 /-- NEGATIVE WITNESS for the hypothesis `hnew` of `account_rename_crash_safe` (the new login must be free):
     `Update` does not check it, and renaming account `a` onto an EXISTING login `b` first renames `a.yaml` over
     `b.yaml`.  A kill right after that call leaves `b`'s account destroyed while `a` is still the old `a` –
